@@ -39,6 +39,11 @@ def run_seed(sid, tests=False, tier="quick", jobs=8):
         env1 = dict(os.environ, PYTHONPATH=wt + ":" + os.path.join(ROOT, "stubs"), PYTHONDONTWRITEBYTECODE="1", SEED_REPO=wt)
         a = sh([PY, os.path.join(wt, demo)], env=env1, cwd=wt, timeout=900)
         r = sh(["git", "-C", wt, "apply", os.path.join(d, "patch.diff")])
+        if r.returncode:  # /repo has moved on since the seed was written (fix: commits): merge the hunks
+            r = sh(["git", "-C", wt, "apply", "--3way", os.path.join(d, "patch.diff")])
+            if r.returncode == 0:
+                sh(["git", "-C", wt, "reset", "-q"])
+                out["patch_merged_3way"] = True
         out["patch_applies"] = r.returncode == 0
         if r.returncode:
             out["error"] = r.stderr[-400:]
